@@ -54,7 +54,9 @@ fn main() {
     let count: usize = args[3].parse().expect("count");
     let tier = args.get(4).map(String::as_str).unwrap_or("quick");
     // panics inside the library are observations, not noise
-    std::panic::set_hook(Box::new(|_| {}));
+    if std::env::var("HARNESS_SHOW_PANICS").is_err() {
+        std::panic::set_hook(Box::new(|_| {}));
+    }
     let mut rng = Rng::new(seed ^ (prop.bytes().fold(0u64, |a, b| a.wrapping_mul(131) + u64::from(b))));
     let cases: Vec<Case> = match prop {
         "C01" => c01::cases(&mut rng, count, tier),
